@@ -248,6 +248,11 @@ class Unit:
                          qid=QID(), patterns=[eltA[r][k]])
 
     def key_ty(self, key):
+        if key not in self._key_ty:
+            if key.startswith("def:"):
+                return BOOL
+            if key.startswith("g:"):
+                return INT
         return self._key_ty[key]
 
     _key_ty = {}
